@@ -34,7 +34,7 @@ type c46Case struct {
 	Tree      string `json:"tree"`   // what /a is
 	Src       string `json:"request_target"`
 	Dest      string `json:"destination"` // header value before the prefix is inserted; "-" = no header
-	DstState  string `json:"b_state"`     // what /b is: absent | file | dir
+	DstState  string `json:"b_state"`     // what /b is: absent | file | dir | (Dir file systems only) symlink-to-src | hardlink-to-src | symlink-to-other
 	Overwrite string `json:"overwrite"`   // "" | T | F
 	Depth     string `json:"depth"`       // "" | 0 | 1 | infinity
 	Lock      string `json:"lock"`        // none | src+token | root+token | dst-locked
@@ -59,7 +59,29 @@ var (
 	// is one value.
 	c46FSsQ = []string{"mem", "dir", "dir-trailing-slash", "dir-double-slash", "dir-dot-segment"}
 	c46FSsT = []string{"dir-dot-prefix", "dir-dotdot-segment", "dir-trailing-dot"}
+	// what the member /b is before the request. The handler compares NAMES of
+	// source and destination; a real directory behind Dir can hold a second name
+	// for the source's storage which that comparison cannot see, so on the Dir
+	// file systems /b is additionally a symbolic link to /a, a hard link of /a
+	// (file sources only: directories have no hard links) and, as the value on
+	// the other side, a symbolic link to a third member /c.
+	c46DstStates    = []string{"absent", "file", "dir"}
+	c46DstAliasFile = []string{"symlink-to-src", "hardlink-to-src", "symlink-to-other"}
+	c46DstAliasDir  = []string{"symlink-to-src", "symlink-to-other"}
 )
+
+// c46DstStatesFor lists the states of /b enumerated for a Destination that
+// names /b, given the file system and the kind of source.
+func c46DstStatesFor(fs, tree string) []string {
+	st := append([]string{}, c46DstStates...)
+	if fs == "mem" {
+		return st // memFS has no links
+	}
+	if tree == "file" {
+		return append(st, c46DstAliasFile...)
+	}
+	return append(st, c46DstAliasDir...)
+}
 
 // c46DirSpell returns the Dir string for the fresh directory base (a clean
 // absolute path) in the given spelling; every spelling names the same
@@ -199,6 +221,10 @@ func c46Snap(fs FileSystem) map[string]string {
 		if !fi.IsDir() {
 			b, _ := io.ReadAll(f)
 			out[p] = "file:" + string(b)
+			if fi.Size() != int64(len(b)) {
+				// content is judged on bytes and on the reported size
+				out[p] = fmt.Sprintf("file(size %d, %d bytes read):%s", fi.Size(), len(b), b)
+			}
 			return
 		}
 		out[p] = "dir"
@@ -274,6 +300,7 @@ func c46Mkdir(fs FileSystem, name string) {
 
 func c46Check(w *vx.W, tmp string, x c46Case) {
 	var fs FileSystem
+	osRoot := "" // the directory behind a Dir file system
 	if x.FS == "mem" {
 		fs = NewMemFS()
 	} else {
@@ -293,6 +320,7 @@ func c46Check(w *vx.W, tmp string, x c46Case) {
 			panic("c46 fixture: Dir spelling " + d + " does not name " + base)
 		}
 		fs = Dir(d)
+		osRoot = base
 	}
 	// source tree
 	switch x.Tree {
@@ -318,6 +346,36 @@ func c46Check(w *vx.W, tmp string, x c46Case) {
 	case "dir":
 		c46Mkdir(fs, "/b")
 		c46Put(fs, "/b/g", "old-g")
+	case "symlink-to-src", "hardlink-to-src", "symlink-to-other":
+		// made directly in the directory behind Dir (the FileSystem interface
+		// cannot create links)
+		if osRoot == "" {
+			panic("c46 fixture: b state " + x.DstState + " needs a Dir file system")
+		}
+		var err error
+		switch x.DstState {
+		case "symlink-to-src":
+			err = os.Symlink("a", filepath.Join(osRoot, "b"))
+		case "hardlink-to-src":
+			err = os.Link(filepath.Join(osRoot, "a"), filepath.Join(osRoot, "b"))
+		case "symlink-to-other":
+			if x.Tree == "file" {
+				c46Put(fs, "/c", "content-c")
+			} else {
+				c46Mkdir(fs, "/c")
+				c46Put(fs, "/c/g", "content-cg")
+			}
+			err = os.Symlink("c", filepath.Join(osRoot, "b"))
+		}
+		if err != nil {
+			panic("c46 fixture: " + err.Error())
+		}
+		// the fixture is what it claims: /b resolves to the source (or not)
+		sa, err1 := os.Stat(filepath.Join(osRoot, "a"))
+		sb, err2 := os.Stat(filepath.Join(osRoot, "b"))
+		if err1 != nil || err2 != nil || os.SameFile(sa, sb) != (x.DstState != "symlink-to-other") {
+			panic("c46 fixture: /b is not the intended link")
+		}
 	default:
 		panic("bad b state")
 	}
@@ -325,6 +383,10 @@ func c46Check(w *vx.W, tmp string, x c46Case) {
 	hdr := c46Header(x.Dest, x.Prefix)
 	rel, loc := c46Relation(x.Prefix, x.Src, hdr)
 	const srcLoc = "/a"
+	if rel == "distinct" && loc == "/b" && (x.DstState == "symlink-to-src" || x.DstState == "hardlink-to-src") {
+		// a differently named member that shares the source's storage
+		rel = "destination-aliases-source"
+	}
 
 	ls := NewMemLS()
 	h := &Handler{Prefix: x.Prefix, FileSystem: fs, LockSystem: ls}
@@ -473,7 +535,7 @@ func TestVerif_C46(t *testing.T) {
 			depths = c46Depths
 			fss = append(fss, c46FSsT...)
 		}
-		c.Rule(fmt.Sprintf("one COPY or MOVE request through Handler.ServeHTTP on a fresh tree: file system %q (mem = NewMemFS; dir = Dir(clean absolute path of a fresh directory); dir-… = Dir(the same fresh directory named by a string that is not in filepath.Clean form: trailing separator, doubled separator inside, \".\" segment inside%s); a new directory per case under the test's temporary root, removed afterwards)%s x method x /a in %q x request target %q x Destination in %q (rel: = relative reference, HOST = the request host, - = no header; includes the root collection \"/\", an ancestor of the source; /b and /b/ additionally with /b absent|file|dir holding a file) x Overwrite %q x Depth %q x lock state %q (infinite-depth locks made directly on the LockSystem; tokens presented in an untagged If list; dst-locked = a foreign lock on the destination location) x Prefix %q. Oracle on the tree read back through the FileSystem interface before/after: COPY — every path at or under /a keeps its kind and content (paths at or under a destination strictly inside the source are exempt); MOVE — /a and everything under it is unchanged, or /a is gone and the destination subtree equals the old source subtree. non-trivial = request answered 201/204 or changed the tree", fss, vx.Pick(c, "", ", trailing \"/.\", \"..\" segment, relative with leading \"./\""), vx.Pick(c, " — quick tier: on every Dir spelling only without Prefix and Depth header, lock states none and src+token, and the 1000-directory self-copy cases only for the plain request", " — mem and dir: the full product; the non-canonical Dir spellings (only the FileSystem methods see the Dir string) without Prefix, with lock states none and src+token, and a COPY of a collection into itself (1000 nested directories) only as the plain request"), c46Trees, c46Srcs, dests, c46Overs, depths, c46Locks, c46Prefixes))
+		c.Rule(fmt.Sprintf("one COPY or MOVE request through Handler.ServeHTTP on a fresh tree: file system %q (mem = NewMemFS; dir = Dir(clean absolute path of a fresh directory); dir-… = Dir(the same fresh directory named by a string that is not in filepath.Clean form: trailing separator, doubled separator inside, \".\" segment inside%s); a new directory per case under the test's temporary root, removed afterwards)%s x method x /a in %q x request target %q x Destination in %q (rel: = relative reference, HOST = the request host, - = no header; includes the root collection \"/\", an ancestor of the source; /b and /b/ additionally with /b absent|file|dir holding a file and, on the Dir file systems, /b made in the directory behind Dir as a second name for other storage: %q for a file source, %q for a collection source — symlink-to-src = symbolic link to /a, hardlink-to-src = hard link of the file /a, symlink-to-other = symbolic link to a third member /c of the source's kind) x Overwrite %q x Depth %q x lock state %q (infinite-depth locks made directly on the LockSystem; tokens presented in an untagged If list; dst-locked = a foreign lock on the destination location) x Prefix %q. Oracle on the tree read back through the FileSystem interface before/after: COPY — every path at or under /a keeps its kind and content (the bytes read and the size reported by Stat; paths at or under a destination strictly inside the source are exempt); MOVE — /a and everything under it is unchanged, or /a is gone and the destination subtree equals the old source subtree. non-trivial = request answered 201/204 or changed the tree", fss, vx.Pick(c, "", ", trailing \"/.\", \"..\" segment, relative with leading \"./\""), vx.Pick(c, " — quick tier: on every Dir spelling only without Prefix and Depth header, lock states none and src+token, and the 1000-directory self-copy cases only for the plain request", " — mem and dir: the full product; the non-canonical Dir spellings (only the FileSystem methods see the Dir string) without Prefix, with lock states none and src+token, and a COPY of a collection into itself (1000 nested directories) only as the plain request"), c46Trees, c46Srcs, dests, c46DstAliasFile, c46DstAliasDir, c46Overs, depths, c46Locks, c46Prefixes))
 		c.Assume("status codes, dead properties, lock bookkeeping and the fate of resources outside the source are not part of the oracle")
 		c.Assume("single requests on a quiescent server; no concurrent requests")
 		c.Assume("the empty Dir string (the current directory) is not among the Dir spellings: it would need a process-wide chdir")
@@ -490,13 +552,13 @@ func TestVerif_C46(t *testing.T) {
 							for _, src := range c46Srcs {
 								for _, tree := range c46Trees {
 									for _, dest := range dests {
-										states := []string{"absent"}
-										if dest == "/b" || dest == "/b/" {
-											states = []string{"absent", "file", "dir"}
-										}
-										for _, st := range states {
-											for _, method := range []string{"COPY", "MOVE"} {
-												for _, fs := range fss {
+										for _, method := range []string{"COPY", "MOVE"} {
+											for _, fs := range fss {
+												states := []string{"absent"}
+												if dest == "/b" || dest == "/b/" {
+													states = c46DstStatesFor(fs, tree)
+												}
+												for _, st := range states {
 													x := c46Case{fs, method, tree, src, dest, st, ow, depth, lock, prefix}
 													if !c46InTier(c.Quick(), x) {
 														continue
